@@ -437,8 +437,31 @@ fn api_forms_v(
         b.set_pre_context(&pre.iter().collect::<String>());
         b.set_post_context(&post.iter().collect::<String>());
     }
-    b.set_direction(rustybuzz::Direction::RightToLeft);
-    b.set_script(script);
+    // variant 3: script and direction are GUESSED, behind a leading private-use character (script Unknown, joining type
+    // U, not part of `text`): characters without a script of their own never decide the guess, and the letters behind a
+    // non-joining character take the forms they take at the start of a text
+    let mut skip_cluster = None;
+    if variant == 3 {
+        let mut probe = rustybuzz::UnicodeBuffer::new();
+        probe.push_str(&text.iter().collect::<String>());
+        probe.guess_segment_properties();
+        if probe.script() == script && pre.is_empty() {
+            let mut b2 = rustybuzz::UnicodeBuffer::new();
+            b2.add('\u{E000}', 1_000_000);
+            for (i, c) in text.iter().enumerate() {
+                b2.add(*c, i as u32);
+            }
+            b2.set_post_context(&post.iter().collect::<String>());
+            b = b2;
+            skip_cluster = Some(1_000_000u32);
+        } else {
+            b.set_direction(rustybuzz::Direction::RightToLeft);
+            b.set_script(script);
+        }
+    } else {
+        b.set_direction(rustybuzz::Direction::RightToLeft);
+        b.set_script(script);
+    }
     b.set_cluster_level(rustybuzz::BufferClusterLevel::Characters);
     // paragraph-boundary flags in every combination: they decide about the dotted circle only (switched off here), never
     // about whether the text contexts take part in joining
@@ -456,7 +479,7 @@ fn api_forms_v(
         Vec::new()
     };
     let gb = rustybuzz::shape(face, &feats, b);
-    let res = forms_of(&gb, text, &index_of);
+    let res = forms_of(&gb, text, &index_of, skip_cluster);
     *recycled = Some(gb.clear());
     res
 }
@@ -465,8 +488,10 @@ fn api_forms(face: &rustybuzz::Face, script: rustybuzz::Script, pre: &[char], te
     api_forms_v(face, script, pre, text, post, 0, &mut None)
 }
 
-fn forms_of(gb: &rustybuzz::GlyphBuffer, text: &[char], index_of: &std::collections::BTreeMap<u32, usize>) -> Result<Vec<u8>, String> {
-    let infos = gb.glyph_infos();
+fn forms_of(gb: &rustybuzz::GlyphBuffer, text: &[char], index_of: &std::collections::BTreeMap<u32, usize>, skip_cluster: Option<u32>) -> Result<Vec<u8>, String> {
+    let all = gb.glyph_infos();
+    let kept: Vec<rustybuzz::GlyphInfo> = all.iter().filter(|i| Some(i.cluster) != skip_cluster).cloned().collect();
+    let infos = &kept[..];
     if infos.len() != text.len() {
         return Err(format!("{} glyphs for {} characters", infos.len(), text.len()));
     }
@@ -552,7 +577,7 @@ fn api(args: &[String]) {
                 let (mut cur, mut fill, mut joined) = (0u64, 0, 0u64);
                 for idx in start..start + count {
                     let t = seq_of(n, idx);
-                    let variant = (idx + n as u64 + pre as u64 + post as u64) % 3;
+                    let variant = if p.is_empty() && idx % 4 == 3 { 3 } else { (idx + n as u64 + pre as u64 + post as u64) % 3 };
                     let r = std::panic::catch_unwind(std::panic::AssertUnwindSafe(|| api_forms_v(&face, script, &p, &t, &q, variant, &mut recycled)));
                     let forms = match r {
                         Ok(Ok(f)) => f,
